@@ -39,13 +39,34 @@ CNT   .blkw 1
 .end
 ";
 
+/// A handler that itself prints (a nested TRAP at the handler's priority): '#'.  The output of the
+/// interrupted run is compared with the uninterrupted one after removing the handler's own character.
+const INT_HANDLER_OUT: &str = "
+.orig x1100
+H2    ADD R6, R6, #-2
+      STR R0, R6, #0
+      STR R7, R6, #1
+      LD R0, HCH
+      OUT
+      LDR R0, R6, #0
+      LDR R7, R6, #1
+      ADD R6, R6, #2
+      RTI
+HCH   .fill x0023
+.end
+";
+thread_local! { static HANDLER_PRINTS: std::cell::Cell<bool> = const { std::cell::Cell::new(false) }; }
+
 fn transparent_run(out: &mut Out, run: u64, flags: SimFlags, psr: u16, plan: &[(u32, IntCmd)], kbd_plan: &[(u32, u8)], kbd_ie: bool, timer: Option<(u32, u8)>) {
     let mut m = M::new(run, flags, out);
-    let handler = assemble_src(INT_HANDLER);
+    let prints = HANDLER_PRINTS.with(|h| h.get());
+    let handler = assemble_src(if prints { INT_HANDLER_OUT } else { INT_HANDLER });
     let prog = assemble_src(T_PROG);
     m.load(out, &handler);
     m.load(out, &prog);
-    m.set_mems(out, &[(0x180, word(0x1000, 0xFFFF)), (0x181, word(0x1000, 0xFFFF)), (0x190, word(0x1000, 0xFFFF)), (0x191, word(0x1000, 0xFFFF))]);
+    let hv = if prints { 0x1100 } else { 0x1000 };
+    m.filter_disp = if prints { Some(0x23) } else { None };
+    m.set_mems(out, &[(0x180, word(hv, 0xFFFF)), (0x181, word(hv, 0xFFFF)), (0x190, word(hv, 0xFFFF)), (0x191, word(hv, 0xFFFF))]);
     m.set_psr(out, psr);
     let s1 = m.add_intfn(out);
     let s2 = m.add_intfn(out);
@@ -106,7 +127,15 @@ pub fn gen_transparent(a: &Args, out: &mut Out) {
         plans.push((0x8002, vec![], kb, true, None));
         plans.push((0x8002, vec![], vec![], false, Some((rng.random_range(25..90), rng.random_range(1..8u8)))));
     }
-    for (psr, plan, kb, ie, timer) in plans {
+    // the same single placements with a handler that prints through the OS (re-entrancy of the service routines)
+    let mut nplain = plans.len();
+    {
+        let stride = if thorough { 1 } else { 2 };
+        let mut b = 1;
+        while b <= nb { plans.push((0x8002, vec![(b, IntCmd { k: 1, vect: 0x90, prio: 4 })], vec![], false, None)); b += stride; }
+    }
+    for (idx, (psr, plan, kb, ie, timer)) in plans.into_iter().enumerate() {
+        HANDLER_PRINTS.with(|h| h.set(idx >= nplain));
         let mut flags = known(0, false, chance(&mut rng, 30));
         // (privilege checks off must not change how interrupts enter and leave: stack switch both ways)
         flags.ignore_privilege = chance(&mut rng, 25);
@@ -115,6 +144,8 @@ pub fn gen_transparent(a: &Args, out: &mut Out) {
         // A and B must have identical headers; devices are added after the header in both
         transparent_run_b(out, run, flags, psr, &plan, &kb, ie, timer); run += 1;
     }
+    HANDLER_PRINTS.with(|h| h.set(false));
+    nplain = 0; let _ = nplain;
     set_pair_tag("none");
 }
 fn transparent_run_b(out: &mut Out, run: u64, flags: SimFlags, psr: u16, plan: &[(u32, IntCmd)], kb: &[(u32, u8)], ie: bool, timer: Option<(u32, u8)>) {
@@ -181,10 +212,25 @@ pub fn gen_traps(a: &Args, out: &mut Out) {
             m.run_call(out, "run", 0, &[], 400);
             m.halted(out);
         } else {
+            // a busy window: the display and/or keyboard buffer is held by someone else for the first
+            // steps of the routine (it must wait, not skip the status poll)
+            // The window may begin at any step, except right at a data access (LDI/STI): grabbing the lock
+            // between a status poll that said "ready" and the data access is the known finding of C33.
+            let (sd, kd): (u32, u32) = if chance(&mut rng, 50) { (rng.random_range(1..140), rng.random_range(3..70)) } else { (0, 0) };
+            let (sk, kk): (u32, u32) = if chance(&mut rng, 30) { (rng.random_range(1..140), rng.random_range(3..70)) } else { (0, 0) };
+            let (mut left_d, mut left_k, mut done_d, mut done_k) = (0u32, 0u32, kd == 0, kk == 0);
             let mut steps = 0;
+            let mut since_ldi = 10u32;
             loop {
-                let r = m.step(out, false, false);
                 steps += 1;
+                let op = m.sim.mem[m.sim.pc].get() >> 12;
+                // not between a status poll (LDI) and the data access that follows it two steps later
+                let unsafe_now = op == 0xB || since_ldi < 3;
+                if !done_d && steps >= sd && !unsafe_now { left_d = kd; done_d = true; }
+                if !done_k && steps >= sk && !unsafe_now { left_k = kk; done_k = true; }
+                since_ldi = if op == 0xA { 0 } else { since_ldi + 1 };
+                let r = m.step_locks(out, if left_k > 0 { 1 } else { 0 }, if left_d > 0 { 1 } else { 0 });
+                left_d = left_d.saturating_sub(1); left_k = left_k.saturating_sub(1);
                 if r != "ok" || steps > 3000 { break; }
                 if m.sim.pc == pc + 1 && !m.sim.psr().privileged() { break; }
             }
@@ -261,6 +307,37 @@ PTR   .fill xFE00
       ADD R4, R4, #2
       .fill x1018
       HALT
+.end
+",
+// output that ends in a newline, then each kind of fault: the message is appended as it is
+"
+.orig x3000
+      LEA R0, MSG
+      PUTS
+      LD R1, PTR
+      LDR R0, R1, #0
+      HALT
+PTR   .fill x0000
+MSG   .stringz \"result: 42\\n\"
+.end
+",
+"
+.orig x3000
+      LD R0, NL
+      OUT
+      OUT
+      .fill xD000
+      HALT
+NL    .fill x000A
+.end
+",
+"
+.orig x3000
+      LD R0, NL
+      OUT
+      RTI
+      HALT
+NL    .fill x000A
 .end
 ",
 ];
@@ -441,6 +518,8 @@ pub fn gen_devices(a: &Args, out: &mut Out) {
         m.read_mem(out, 0xFE12, MemAccessCtx::omnipotent());
         if variant >= 2 { m.add_regdev(out, &[0xFE10, 0xFE11], 0x5555); m.read_mem(out, 0xFE10, MemAccessCtx::omnipotent()); m.read_mem(out, 0xFE11, MemAccessCtx::omnipotent()); }
         if variant >= 4 { m.remove_device(out, 1); m.remove_device(out, 2); m.remove_device(out, 0); m.read_mem(out, 0xFE00, MemAccessCtx::omnipotent()); m.add_regdev(out, &[0xFE00], 7); }
+        if variant % 3 == 0 { m.add_plain_dev(out, "null", &[0xFE20, 0xFE21]); let id = (m.devs.len() - 1) as u16; m.read_mem(out, 0xFE20, MemAccessCtx::omnipotent());
+                              m.remove_device(out, id); m.add_regdev(out, &[0xFE20], 0x7777); m.read_mem(out, 0xFE20, MemAccessCtx::omnipotent()); m.read_mem(out, 0xFE21, MemAccessCtx::omnipotent()); }
         m.add_regdev(out, &[0xFE12], 0x6666);                  // occupied port: rejected, nothing changes
         m.read_mem(out, 0xFE12, MemAccessCtx::omnipotent());
         m.end(out);
@@ -457,6 +536,7 @@ pub fn gen_devices(a: &Args, out: &mut Out) {
                     let v = rng.random(); m.add_regdev(out, &ps, v);
                 }
                 2 => { let id = rng.random_range(0..8u16); m.remove_device(out, id); }
+                11 if chance(&mut rng, 50) => { let ps: Vec<u16> = (0..rng.random_range(1..3)).map(|_| pick(&mut rng, &ports)).collect(); m.add_plain_dev(out, "null", &ps); }
                 3 => { if chance(&mut rng, 50) { m.set_keyboard_new(out, None) } else { let v = rng.random(); m.set_keyboard_new(out, Some(v)) } }
                 4 => { m.set_display_new(out); }
                 5 => { let a2 = if chance(&mut rng, 85) { pick(&mut rng, &ports) } else { pick(&mut rng, &bad_ports) };
@@ -498,6 +578,7 @@ pub fn replay_devices(a: &Args, out: &mut Out) {
             let u = |f: &str| o[f].as_u64().unwrap_or(0) as u16;
             match o["op"].as_str().unwrap() {
                 "adddev" => { let ps: Vec<u16> = o["ports"].as_array().unwrap().iter().map(|x| x.as_u64().unwrap() as u16).collect(); m.add_regdev(out, &ps, u("val")); }
+                "addnull" => { let ps: Vec<u16> = o["ports"].as_array().unwrap().iter().map(|x| x.as_u64().unwrap() as u16).collect(); m.add_plain_dev(out, "null", &ps); }
                 "rmdev" => m.remove_device(out, u("id")),
                 "mmap" => m.mmap(out, u("a"), match o["reg"].as_str().unwrap() { "PC" => InternalRegister::PC, "PSR" => InternalRegister::PSR, "MCR" => InternalRegister::MCR, _ => InternalRegister::SavedSP }),
                 "munmap" => m.munmap(out, u("a")),
